@@ -1,9 +1,439 @@
-"""C08 stub"""
+"""C08 -- clipping keeps every selected value and blanks everything else.
+
+Functions under contract (real bodies): masking.find_fill_value, mask_grid_data_array, calculate_grid_mask_bounds, mask_grid_dataset (with the
+netCDF work files as a recording file model), utils.to_netcdf_with_fixes, disable_default_fill_value, dataset_like, _update_no_clobber;
+conventions.ugrid.update_connectivity / _masked_integer_data_array and the row selection of UGrid.apply_clip_mask.
+Specification (grids).  A mask dataset holds boolean arrays m(dims) (any number, any extents).  W = the tightest index window containing
+every True entry of every mask.  For a data variable v: the applicable mask is the first whose dimensions all belong to v; fill(v) is NaN
+for float variables, the _FillValue / missing_value attribute for integer variables that have one, and nothing otherwise.  Then
+  out[v][i] = v[W.lo + i]            where the applicable mask is True at W.lo + i, or there is no applicable mask / no fill value
+  out[v][i] = fill(v)                elsewhere
+attributes and encoding of v kept; coordinates only cropped; the window is tight (each side touches a selected entry).
+Library contracts: XR-WHERE, XR-ISEL, XR-NETCDF-ROUNDTRIP (a dataset written to a work file and read back with open_mfdataset has the same
+variables, values and attributes; decoding details are the bounded native part), XR-MAYBE-PROMOTE.
+"""
+from __future__ import annotations
+
+import itertools
+
+import z3
+
+from contracts import inputs
+from pyvc import core
+from pyvc.api import (FIN, PathEnd, SFloat, Variable, XDataArray, XDataset, add_var, call, cls, expect_ok, expect_raise, fn, method,
+                      mk_bool, mk_int, new_interp, outcome, s_and, s_eq, s_implies, s_ite, s_not, s_or, sym_array, sym_size, zint)
+from pyvc.lib import numpy_ as np
+from pyvc.lib.numpy_ import BOOL, FLOAT64, INT32, INT64, NDArray
+
 PROPERTY = 'C08'
+MOD = 'emsarray.masking'
 
 
 def scenarios(tier):
-    return []
+    out = [{'name': 'find_fill_value', 'fn': 'scn_fill_value', 'kwargs': {}}]
+    for layout in (('y', 'x'), ('t', 'y', 'x'), ('x', 't', 'y'), ('y', 'x', 'b'), ('t',), ('y',)):
+        out.append({'name': f'mask_grid_data_array[variable{layout}]', 'fn': 'scn_mask_array', 'kwargs': {'layout': layout}})
+    out.append({'name': 'mask_grid_data_array[several masks: the first whose dimensions fit]', 'fn': 'scn_mask_choice', 'kwargs': {}})
+    out.append({'name': 'calculate_grid_mask_bounds[one mask]', 'fn': 'scn_bounds', 'kwargs': {'masks': 1}})
+    out.append({'name': 'calculate_grid_mask_bounds[staggered masks]', 'fn': 'scn_bounds', 'kwargs': {'masks': 2}})
+    out.append({'name': 'calculate_grid_mask_bounds[empty mask is refused]', 'fn': 'scn_bounds_empty', 'kwargs': {}})
+    for edges in ('none', 'both', 'dimension'):
+        out.append({'name': f'UGrid.apply_clip_mask data rows[edges={edges}]', 'fn': 'scn_mesh_data', 'kwargs': {'edges': edges}})
+    for ci, cfg in enumerate(GRID_CONFIGS):
+        out.append({'name': f'mask_grid_dataset[{cfg[0]}]', 'fn': 'scn_grid_dataset', 'kwargs': {'ci': ci}})
+    return out
+
+
+def _da(c, name, dims, sizes, kind, attrs=None, dtype=None):
+    arr = sym_array(c, name, tuple(sizes[d] for d in dims), kind, dtype)
+    return XDataArray(data=arr, dims=dims, name=name, attrs=dict(attrs or {}))
+
+
+def scn_fill_value(c):
+    it = new_interp()
+    f = fn(it, MOD, 'find_fill_value')
+    sizes = {'y': sym_size(c, 'ny'), 'x': sym_size(c, 'nx')}
+    from pyvc.lib.floats import SFloat as SF
+    for dt, kind in ((FLOAT64, 'floatnan'), (np.FLOAT32 if hasattr(np, 'FLOAT32') else FLOAT64, 'floatnan')):
+        v = expect_ok(c, f'float variable ({dt})', lambda: call(it, f, _da(c, 'a', ('y', 'x'), sizes, kind, dtype=dt)))
+        c.check(f'a float variable ({dt}) without attributes is blanked with NaN', isinstance(v, SF) and v.is_nan() is True)
+    for dt in (INT32, INT64, np.INT16 if hasattr(np, 'INT16') else INT32, BOOL):
+        expect_raise(c, f'an integer / boolean variable ({dt}) without a fill attribute cannot be blanked: ValueError',
+                     lambda: call(it, f, _da(c, 'b', ('y', 'x'), sizes, 'bool' if dt is BOOL else 'int', dtype=dt)), ValueError)
+    fv, mv = c.fresh_int('fv'), c.fresh_int('mv')
+    for dt, kind in ((INT32, 'int'), (FLOAT64, 'floatnan')):
+        v = expect_ok(c, '_FillValue attribute', lambda: call(it, f, _da(c, 'c', ('y', 'x'), sizes, kind, {'_FillValue': fv}, dtype=dt)))
+        c.check(f'a variable ({dt}) with a _FillValue attribute is blanked with it', v is fv)
+        v = expect_ok(c, 'missing_value attribute', lambda: call(it, f, _da(c, 'd', ('y', 'x'), sizes, kind, {'missing_value': mv}, dtype=dt)))
+        c.check(f'a variable ({dt}) with only a missing_value attribute is blanked with it', v is mv)
+        v = expect_ok(c, 'both attributes', lambda: call(it, f, _da(c, 'e', ('y', 'x'), sizes, kind, {'missing_value': mv, '_FillValue': fv}, dtype=dt)))
+        c.check(f'_FillValue wins over missing_value ({dt})', v is fv)
+
+
+def _mask_ds(c, sizes, names=(('cell_mask', ('y', 'x')),)):
+    mask = XDataset(attrs={'type': 'mask'})
+    for name, dims in names:
+        add_var(mask, name, dims, sym_array(c, name, tuple(sizes[d] for d in dims), 'bool'))
+    return mask
+
+
+def _point(c, dims, sizes):
+    p = {}
+    for d in dims:
+        q = c.fresh_int(d + 'q')
+        c.assume(q >= 0)
+        c.assume(q < sizes[d])
+        p[d] = q
+    return p
+
+
+def scn_mask_array(c, layout):
+    it = new_interp()
+    f = fn(it, MOD, 'mask_grid_data_array')
+    sizes = {d: sym_size(c, 'n' + d) for d in ('t', 'y', 'x', 'b')}
+    mask = _mask_ds(c, sizes)
+    covered = {'y', 'x'} <= set(layout)
+    p = _point(c, layout, sizes)
+    i = tuple(p[d] for d in layout)
+    fv = c.fresh_int('fv')
+    cases = [('float', 'floatnan', FLOAT64, {'units': 'degC'}), ('int + _FillValue', 'int', INT32, {'_FillValue': fv, 'long_name': 'flag'}),
+             ('int + missing_value', 'int', INT64, {'missing_value': fv}), ('int without fill', 'int', INT32, {'long_name': 'count'})]
+    for label, kind, dt, attrs in cases:
+        da = _da(c, 'v', layout, sizes, kind, attrs, dtype=dt)
+        da.variable.encoding['chunks'] = 'original'
+        out = expect_ok(c, f'{label}: returns', lambda: call(it, f, mask, da))
+        can = label != 'int without fill'
+        if not covered or not can:
+            c.check(f'{label}: {"no mask fits" if not covered else "cannot hold missing values"} -- the variable is returned untouched', out is da)
+            continue
+        c.check(f'{label}: same dimensions', out.variable.dims == tuple(layout))
+        c.check(f'{label}: attributes kept', out.variable.attrs == attrs)
+        c.check(f'{label}: encoding kept', out.variable.encoding == {'chunks': 'original'})
+        m = mask._vars['cell_mask'].arr.fn((p['y'], p['x']))
+        got, was = out.variable.arr.fn(i), da.variable.arr.fn(i)
+        if kind == 'floatnan':
+            c.check(f'{label}: a selected entry keeps its value', s_implies(m, got.same_bits(was)))
+            c.check(f'{label}: an entry outside the selection is NaN', s_implies(s_not(m), got.is_nan()))
+        else:
+            c.check(f'{label}: a selected entry keeps its value', s_implies(m, s_eq(got, was)))
+            c.check(f'{label}: an entry outside the selection holds the declared fill value', s_implies(s_not(m), s_eq(got, fv)))
+        c.check(f'{label}: the input array is not modified', da.variable.arr.fn(i) is not None and da.variable.attrs == attrs)
+
+
+def scn_mask_choice(c):
+    it = new_interp()
+    f = fn(it, MOD, 'mask_grid_data_array')
+    ny, nx = sym_size(c, 'ny'), sym_size(c, 'nx')
+    sizes = {'j_centre': ny, 'i_centre': nx, 'j_left': ny, 'i_left': nx + 1, 'j_back': ny + 1, 'i_back': nx, 'j_node': ny + 1, 'i_node': nx + 1, 't': sym_size(c, 'nt')}
+    names = (('face_mask', ('j_centre', 'i_centre')), ('left_mask', ('j_left', 'i_left')), ('back_mask', ('j_back', 'i_back')), ('node_mask', ('j_node', 'i_node')))
+    mask = _mask_ds(c, sizes, names)
+    for mname, mdims in names:
+        for layout in ((('t',) + mdims), (mdims[1], 't', mdims[0])):
+            da = _da(c, 'v', layout, sizes, 'floatnan', {'units': 'u'}, dtype=FLOAT64)
+            out = expect_ok(c, f'{mname} {layout}', lambda: call(it, f, mask, da))
+            p = _point(c, layout, sizes)
+            m = mask._vars[mname].arr.fn(tuple(p[d] for d in mdims))
+            got, was = out.variable.arr.fn(tuple(p[d] for d in layout)), da.variable.arr.fn(tuple(p[d] for d in layout))
+            c.check(f'variable{layout}: masked with {mname} -- selected entries kept', s_implies(m, got.same_bits(was)))
+            c.check(f'variable{layout}: masked with {mname} -- others NaN', s_implies(s_not(m), got.is_nan()))
+
+
+def _bounds_setup(c, masks):
+    ny, nx = sym_size(c, 'ny'), sym_size(c, 'nx')
+    if masks == 1:
+        sizes = {'y': ny, 'x': nx}
+        names = (('cell_mask', ('y', 'x')),)
+    else:
+        sizes = {'j_centre': ny, 'i_centre': nx, 'j_node': ny + 1, 'i_node': nx + 1}
+        names = (('face_mask', ('j_centre', 'i_centre')), ('node_mask', ('i_node', 'j_node')))
+    return sizes, names, _mask_ds(c, sizes, names)
+
+
+def scn_bounds(c, masks):
+    it = new_interp()
+    f = fn(it, MOD, 'calculate_grid_mask_bounds')
+    sizes, names, mask = _bounds_setup(c, masks)
+    kind_, b = outcome(lambda: call(it, f, mask))
+    if kind_ == 'raise':
+        # only a mask without any selected entry may be refused (obligations on that path: scenario "empty mask is refused")
+        from pyvc.api import exc_matches
+        c.check('the only error is ValueError for a mask that selects nothing', exc_matches(b, ValueError))
+        pts = {mn: _point(c, md, sizes) for mn, md in names}
+        _ghost_global(c, [tuple(p.values()) for p in pts.values()] + [tuple(reversed(list(p.values()))) for p in pts.values()])
+        c.check('... and then some mask really selects nothing', s_not(s_and(*[mask._vars[mn].arr.fn(tuple(pts[mn][d] for d in md)) for mn, md in names])))
+        raise PathEnd()
+    c.check('one slice per mask dimension', isinstance(b, dict) and set(b) == {d for _, dims in names for d in dims} and all(isinstance(s, slice) for s in b.values()))
+    if not isinstance(b, dict):
+        raise PathEnd()
+    sels = list(getattr(c, 'selections', []))
+    c.check('two least-witness searches (front, back) per mask dimension', len(sels) == 2 * sum(len(md) for _, md in names))
+    if len(sels) != 2 * sum(len(md) for _, md in names):
+        raise PathEnd()
+    k = 0
+    for mname, mdims in names:
+        arr = mask._vars[mname].arr
+        p = _point(c, mdims, sizes)
+        m = arr.fn(tuple(p[d] for d in mdims))
+        for d in mdims:
+            s = b[d]
+            c.check(f'{mname}/{d}: a plain window (no step)', s.step is None)
+            lo, hi = s.start, s.stop
+            other = [p[x] for x in mdims if x != d][0]
+            _ghost_dim(c, sels[k], sels[k + 1], sizes[d], p[d], other, lo, hi)
+            k += 2
+            c.check(f'{mname}/{d}: the window lies inside the dimension', s_and(mk_bool(zint(lo) >= 0), mk_bool(zint(hi) <= zint(sizes[d])), mk_bool(zint(lo) < zint(hi))))
+            c.check(f'{mname}/{d}: every selected entry lies inside the window', s_implies(m, s_and(mk_bool(zint(lo) <= zint(p[d])), mk_bool(zint(p[d]) < zint(hi)))))
+            # tight: the first and the last row of the window hold a selected entry
+            c.check(f'{mname}/{d}: the window is tight (its first and last rows hold a selected entry)',
+                    s_and(sels[k - 2].keep(lo), sels[k - 1].keep(sizes[d] - hi)))
+
+
+def _ghost_global(c, pairs):
+    """ghost: instances of  mask[r] => any(mask)  for the global reductions"""
+    for quant, o in list(getattr(c, 'quantifiers', [])):
+        if len(o) == 0:
+            for r in pairs:
+                if len(r) == len(quant.axes):
+                    quant.instantiate(o, r)
+
+
+def _ghost_dim(c, sel_f, sel_r, n, q, other, lo, hi):
+    """ghost lemma calls for one mask dimension: sel_f / sel_r enumerate the rows holding a selected entry from the front / from the
+    back; instantiate least-witness facts at row q (the Skolem entry), at the window ends, and  mask[q, other] => any(mask[q, :])."""
+    nb = len(getattr(c, 'quantifiers', []))
+    for s_, cands in ((sel_f, [q, lo]), (sel_r, [n - 1 - q, n - hi, n - 1 - lo])):
+        for x in cands:
+            r = s_.rank(x)
+            s_.sel(r)
+            s_.sel(0)
+    for quant, o in list(getattr(c, 'quantifiers', []))[nb:]:
+        if len(quant.axes) == 1:
+            quant.instantiate(o, (other,))
+
+
+def scn_bounds_empty(c):
+    it = new_interp()
+    f = fn(it, MOD, 'calculate_grid_mask_bounds')
+    sizes = {'y': sym_size(c, 'ny'), 'x': sym_size(c, 'nx')}
+    mask = XDataset()
+    add_var(mask, 'cell_mask', ('y', 'x'), NDArray((sizes['y'], sizes['x']), lambda i: False, BOOL))
+    expect_raise(c, 'a mask that selects nothing is refused with ValueError', lambda: call(it, f, mask), ValueError)
 
 
 NATIVE = {'': 'apply'}
+
+
+# ---- end to end on grids ------------------------------------------------------------------------------------------------------------
+GRID_CONFIGS = [
+    ('CFGrid1D', {}, ('lat', 'lon'), 'cell_mask'), ('CFGrid2D', {'bounds': True}, ('j', 'i'), 'cell_mask'),
+    ('ShocStandard', {}, ('j_centre', 'i_centre'), 'face_mask'),
+]
+
+
+def scn_grid_dataset(c, ci):
+    from pyvc.lib.stdlib import OpaqueValue, PathModel
+    conv_name, kw, fdims, mname = GRID_CONFIGS[ci]
+    it = new_interp()
+    extra = [('temp', ('t',) + fdims, 'floatnan'), ('flipped', (fdims[1], 't', fdims[0]), 'floatnan'), ('count', fdims, 'int'), ('scalar', ('t',), 'floatnan')]
+    ds, conv = inputs.make_convention(it, c, conv_name, extra=extra, **kw)
+    ds.attrs['title'] = 'model'
+    ds._vars['temp'].attrs['units'] = 'degC'
+    sizes = ds._sizes()
+    names = ((mname, fdims),)
+    if conv_name == 'ShocStandard':
+        names = (('face_mask', ('j_centre', 'i_centre')), ('left_mask', ('j_left', 'i_left')), ('back_mask', ('j_back', 'i_back')), ('node_mask', ('j_node', 'i_node')))
+    mask = _mask_ds(c, sizes, names)
+    f = fn(it, MOD, 'mask_grid_dataset')
+    work = PathModel(OpaqueValue('work_dir'))
+    kind_, out = outcome(lambda: call(it, f, ds, mask, work))
+    if kind_ == 'raise':
+        from pyvc.api import exc_matches
+        c.check('the only error is ValueError for a mask that selects nothing', exc_matches(out, ValueError))
+        raise PathEnd()
+    c.check('same data variables in the same order', list(out._iterate()) == list(ds._iterate()))
+    c.check('same coordinates', out._coord_names == ds._coord_names)
+    c.check('global attributes kept', out.attrs == ds.attrs)
+    # the window: read off the slices the real code applied (their correctness: calculate_grid_mask_bounds scenarios)
+    opened = [e for e in c.events if e[0] == 'open_mfdataset']
+    c.check('the work files are combined once', len(opened) == 1)
+    crops = [e for e in c.events if e[0] == 'Dataset.isel' and e[1] is ds]
+    c.check('the dataset is cropped once, to one window per mask dimension', len(crops) == 1 and set(crops[0][2]) == {d for _, md in names for d in md})
+    if len(crops) != 1:
+        raise PathEnd()
+    window = crops[0][2]
+    mcrops = [e for e in c.events if e[0] == 'Dataset.isel' and e[1] is mask]
+    c.check('the mask is cropped to the same window', len(mcrops) == 1 and mcrops[0][2] is window or (len(mcrops) == 1 and mcrops[0][2] == window))
+    lo = {d: s_.start for d, s_ in window.items()}
+    hi = {d: s_.stop for d, s_ in window.items()}
+    osizes = out._sizes()
+    for d in window:
+        c.assume(mk_bool(zint(lo[d]) >= 0))          # established by the calculate_grid_mask_bounds scenarios
+        c.assume(mk_bool(zint(hi[d]) <= zint(sizes[d])))
+        c.assume(mk_bool(zint(lo[d]) < zint(hi[d])))
+        c.check(f'dimension {d!r} is cropped to the window', s_eq(osizes.get(d), hi[d] - lo[d]))
+    for d in sizes:
+        if d not in window:
+            c.check(f'dimension {d!r} is not a mask dimension and keeps its size', s_eq(osizes.get(d), sizes[d]))
+    mask_of = {name: next((mn for mn, md in names if set(md) <= set(ds._vars[name].dims)), None) for name in ds._vars}
+    for name, vi in ds._vars.items():
+        vo = out._vars.get(name)
+        c.check(f'{name!r} is present', vo is not None)
+        if vo is None:
+            continue
+        c.check(f'{name!r}: dimensions kept', vo.dims == vi.dims)
+        c.check(f'{name!r}: attributes kept', vo.attrs == vi.attrs)
+        p = {}
+        for d in vi.dims:
+            q = c.fresh_int(f'{d}_q')
+            c.assume(q >= 0)
+            c.assume(q < osizes[d])
+            p[d] = q
+        src = tuple(p[d] + lo[d] if d in window else p[d] for d in vi.dims)
+        got, was = vo.arr.fn(tuple(p[d] for d in vi.dims)), vi.arr.fn(src)
+        same = got.same_bits(was) if isinstance(got, SFloat) else s_eq(got, was)
+        mn = mask_of[name] if name not in ds._coord_names else None
+        if mn is None or not isinstance(got, SFloat):
+            why = 'a coordinate' if name in ds._coord_names else ('no mask fits' if mn is None else 'cannot hold missing values')
+            c.check(f'{name!r} ({why}): cropped to the window, values untouched', same)
+        else:
+            md = dict(names)[mn]
+            m = mask._vars[mn].arr.fn(tuple(p[d] + lo[d] for d in md))
+            c.check(f'{name!r}: every selected entry keeps its value (mask {mn})', s_implies(m, same))
+            c.check(f'{name!r}: every other entry inside the window is missing', s_implies(s_not(m), got.is_nan()))
+    return out
+
+
+
+
+# ---- meshes ------------------------------------------------------------------------------------------------------------------------
+def _mesh_mask(c, ds, has_edges):
+    """VALID-UGRID-MASK (what mask_from_face_indexes produces, C07): new_X_index[n] is NaN for a dropped element and the rank of n among
+    the kept elements otherwise; _FillValue encoding = the topology fill value."""
+    from pyvc.lib.seq import Selection
+    from pyvc.lib.floats import NAN
+    info = ds.info
+    mask = XDataset(attrs={'title': 'UGRID dataset mask'})
+    sels = {}
+    fill = 999999
+    for what, n in (('face', info['nface']), ('edge', info['nedge']), ('node', info['nnode'])):
+        if what == 'edge' and not has_edges:
+            continue
+        keep = c.fresh_fn('keep_' + what, z3.IntSort(), z3.BoolSort())
+        sel = Selection(n, (lambda keep: lambda k: mk_bool(keep(zint(k))))(keep), name='kept_' + what)
+        sels[what] = (keep, sel)
+        reg = getattr(c, 'mask_selections', None)       # SELECTION-EXTENSIONALITY: the code's own enumeration of the same rows is this one
+        if reg is None:
+            reg = c.mask_selections = []
+        reg.append(sel)
+
+        def at(i, keep=keep, sel=sel):
+            k = i[0]
+            return SFloat(mk_int(z3.If(keep(zint(k)), FIN, NAN)), sel.rank(k))
+        v = Variable((f'old_{what}_index',), NDArray((n,), at, FLOAT64), {}, {'dtype': INT32, '_FillValue': fill})
+        mask._vars[f'new_{what}_index'] = v
+    return mask, sels, fill
+
+
+def _valid_mesh(c, it, edges, fill, si, extra):
+    """a UGRID dataset whose face_node (and edge_node) tables encode abstract, valid tables"""
+    from props.C10 import Table
+    ds = inputs.ugrid_mesh(c, fill=fill, start_index=si, edges=edges, extra=extra)
+    info = ds.info
+    tables = {}
+    if edges in ('both', 'edge_node'):
+        t = Table(c, 'edge_node', info['nedge'], 2, 'none', si, False, 'nedge', 'Two', info['nnode'])
+        ds._vars['edge_node'] = t.variable
+        tables['edge_node'] = t
+    conv = it.instantiate(cls(it, 'emsarray.conventions.ugrid', 'UGrid'), [ds], {})
+    return ds, conv, tables
+
+
+def scn_mesh_data(c, edges, fill='int_fill', si=1):
+    """UGrid.apply_clip_mask: row selection of data variables and renumbering of the connectivity tables"""
+    from pyvc.lib.stdlib import OpaqueValue, PathModel
+    it = new_interp(use=[])
+    has_edges = edges != 'none'
+    extra = [('temp', ('t', 'nface'), 'floatnan'), ('flipped', ('nface', 't'), 'floatnan'), ('node_val', ('nnode',), 'floatnan'), ('count', ('nface',), 'int'), ('scalar', ('t',), 'floatnan')]
+    if has_edges:
+        extra.append(('edge_val', ('t', 'nedge'), 'floatnan'))
+    ds, conv, tables = _valid_mesh(c, it, edges, fill, si, extra)
+    ds.attrs['title'] = 'mesh run'
+    ds._vars['temp'].attrs['units'] = 'degC'
+    info = ds.info
+    mask, sels, fillv = _mesh_mask(c, ds, has_edges)
+    for n_ in (info['nnode'], info['nface']) + ((info['nedge'],) if has_edges else ()):
+        c.assume(n_ < fillv - 1)          # VALID-UGRID-MASK: the mask fill value exceeds every index (C10: sensible_fill_value)
+    # VALID-UGRID-MASK: the nodes (and edges) of a kept face are kept -- instantiated where the tables are read (C07 proves it for
+    # the masks make_clip_mask builds)
+    keepF, keepN = sels['face'][0], sels['node'][0]
+    before = {k: (v.dims, v.arr, dict(v.attrs)) for k, v in ds._vars.items()}
+    work = PathModel(OpaqueValue('work_dir'))
+    kf = c.fresh_int('kf')        # a row of the clipped face tables
+    j = c.fresh_int('jcol')
+    c.assume(kf >= 0)
+    c.assume(j >= 0)
+    c.assume(j < info['maxn'])
+    selF = sels['face'][1]
+    c.assume(kf < selF.count)
+    f_old = selF.sel(kf)
+    node = info['mesh_node'](f_old, j)
+    c.assume(z3.Implies(zint(j) < zint(info['mesh_count'](f_old)), keepN(zint(node))))
+    if 'edge_node' in tables:
+        ke, bcol = c.fresh_int('ke'), c.fresh_int('bcol')
+        selE = sels['edge'][1]
+        for q, n_ in ((ke, selE.count), (bcol, 2)):
+            c.assume(q >= 0)
+            c.assume(q < n_)
+        e_old = selE.sel(ke)
+        enode = tables['edge_node'].val(e_old, bcol)
+        c.assume(keepN(zint(enode)))                 # VALID-UGRID-MASK: the nodes of a kept edge are kept
+    out = expect_ok(c, 'apply_clip_mask returns', lambda: method(it, conv, 'apply_clip_mask', mask, work))
+    osizes = out._sizes()
+    dim_sel = {'nface': sels['face'][1], 'nnode': sels['node'][1]}
+    if has_edges:
+        dim_sel['nedge'] = sels['edge'][1]
+    for d, sel in dim_sel.items():
+        c.check(f'{d}: as many rows as selected elements', s_eq(osizes.get(d), sel.count))
+    c.check('same data variables in the same order', list(out._iterate()) == list(ds._iterate()))
+    c.check('global attributes kept', out.attrs == ds.attrs)
+    geometry = {'mesh', 'face_node', 'edge_node', 'node_x', 'node_y'}
+    for name, (dims, arr, attrs) in before.items():
+        vo = out._vars.get(name)
+        c.check(f'{name!r} is present', vo is not None)
+        if vo is None or name in ('face_node', 'edge_node', 'mesh'):
+            continue
+        c.check(f'{name!r}: dimensions kept', vo.dims == dims)
+        c.check(f'{name!r}: attributes kept', vo.attrs == attrs)
+        p, src = [], []
+        for d in dims:
+            q = c.fresh_int(f'{d}_q')
+            c.assume(q >= 0)
+            c.assume(q < osizes[d])
+            p.append(q)
+            src.append(dim_sel[d].sel(q) if d in dim_sel else q)
+        got, was = vo.arr.fn(tuple(p)), arr.fn(tuple(src))
+        c.check(f'{name!r}: row k of the result is the k-th selected row, values untouched' if set(dims) & set(dim_sel) else f'{name!r}: no mesh dimension, passes through unchanged',
+                got.same_bits(was) if isinstance(got, SFloat) else s_eq(got, was))
+    # ---- face_node of the clipped mesh (C09: renumbered, same start_index, integer on disk) ------------------------------------
+    vo = out._vars.get('face_node')
+    vi_attrs = before['face_node'][2]
+    if vo is not None:
+        c.check('face_node: dimension order kept', vo.dims == before['face_node'][0])
+        c.check('face_node: start_index kept', vo.attrs.get('start_index') == vi_attrs.get('start_index'))
+        c.check('face_node: no _FillValue attribute next to the _FillValue encoding', '_FillValue' not in vo.attrs and vo.encoding.get('_FillValue') is not None)
+        c.check('face_node: saved with the integer type of the input', vo.encoding.get('dtype') is not None and getattr(vo.encoding.get('dtype'), 'kind', None) == 'i')
+        got = vo.arr.fn((kf, j))
+        present = mk_bool(zint(j) < zint(info['mesh_count'](f_old)))
+        selN = sels['node'][1]
+        c.check('face_node: row k lists the nodes of the k-th selected face -- an entry is missing exactly where the face has no such node',
+                s_eq(got.is_nan(), s_not(present)))
+        c.check('face_node: ... and a present entry is the NEW index of that node (its rank among the kept nodes) plus start_index',
+                s_implies(present, s_and(got.is_fin(), s_eq(got.val, selN.rank(node) + si))))
+    if 'edge_node' in tables and out._vars.get('edge_node') is not None:
+        vo = out._vars['edge_node']
+        c.check('edge_node: dimension order and start_index kept', vo.dims == before['edge_node'][0] and vo.attrs.get('start_index') == before['edge_node'][2].get('start_index'))
+        got = vo.arr.fn((ke, bcol))
+        c.check('edge_node: row k lists the NEW indexes of the nodes of the k-th selected edge',
+                s_and(got.is_fin(), s_eq(got.val, sels['node'][1].rank(enode) + si)))
+        c.check('edge_node: saved as an integer table', getattr(vo.encoding.get('dtype'), 'kind', None) == 'i')
+    return out
